@@ -42,3 +42,21 @@ Definition snap_ok (cs : list (nat * list nat * option (list nat))) : list nat :
   map (fun x => fst (fst x)) (List.filter (fun x => match snd x with
                                                 | Some a => negb (bool_decide ((list_to_set (snd (fst x)) : zone) = list_to_set a))
                                                 | None => false end) cs).
+
+(* ---- with memory-preserving containers: accounted in the allocator, never written ---- *)
+Definition apply_updates_np (pres : gset nat) (m : gmap nat zone) (upd : list (nat * zone)) : gmap nat zone :=
+  fold_left (fun m kv => if decide (fst kv ∈ pres) then m else <[fst kv := snd kv]> m) upd m.
+
+Definition mstep_p (pres : gset nat) (s : mst) (o : mop) : mst :=
+  match o with
+  | MAlloc c z upd =>
+    let t := apply_updates_np pres (told s) upd in
+    {| told := if decide (c ∈ pres) then t else <[c := z]> t; asg := <[c := z]> (apply_updates (asg s) upd) |}
+  | MFallback c nodes =>
+    match asg s !! c with
+    | Some _ => s
+    | None => if decide (c ∈ pres) then s else {| told := <[c := nodes]> (told s); asg := asg s |}
+    end
+  | MRelease c => {| told := delete c (told s); asg := delete c (asg s) |}
+  end.
+
